@@ -6,7 +6,7 @@ import random, json, sys
 from ..harness import coq, impl
 
 pid = 'C20'
-gen_modules = ['tr_pin_imports', 'tr_has_patcher']
+gen_modules = ['tr_pin_imports', 'tr_has_patcher', 'tr_rest_patcher', 'tr_rest_imports']
 model_targets = ['Sem/ImportModel.v']
 hand_modelled = ['coq/Sem/ImportModel.v: activate / deactivate / module_load / DealLoader.exec_module / _get_contracts / _exec_contract (hand-written; source pinned); '
                  'importlib (a module whose execution raised is not registered) as an oracle']
